@@ -5,7 +5,11 @@ package app
 // Exported wrappers used only by the verification harness (/verif). Add-only, compiled with -tags verif.
 
 import (
+	"fmt"
+	"math"
 	"sort"
+	"strconv"
+	"strings"
 
 	"github.com/Eyevinn/dash-mpd/mpd"
 	"github.com/Eyevinn/mp4ff/mp4"
@@ -161,4 +165,81 @@ func (s *Server) VerifChunkSegment(assetPath, repID string, durs []uint32, chunk
 		}
 	}
 	return out, nil
+}
+
+// VerifProcessURLCfg runs processURLCfg and prints the resulting configuration in a canonical line ("err" on error).
+func VerifProcessURLCfg(confURL string, nowMS int) string {
+	cfg, err := processURLCfg(confURL, nowMS)
+	if err != nil {
+		return "err"
+	}
+	ip := func(p *int) string {
+		if p == nil {
+			return "-"
+		}
+		return strconv.Itoa(*p)
+	}
+	milli := func(f float64) string {
+		if math.IsInf(f, 1) {
+			return "inf"
+		}
+		return strconv.Itoa(int(math.Round(f * 1000)))
+	}
+	fp := func(p *float64) string {
+		if p == nil {
+			return "-"
+		}
+		return milli(*p)
+	}
+	b := func(v bool) string {
+		if v {
+			return "1"
+		}
+		return "0"
+	}
+	var sb strings.Builder
+	fmt.Fprintf(&sb, "ok idx=%d start=%d stop=%s tsbd=%s mup=%s periods=%s snr=%s ato=%s ltgt=%s spd=%s chunk=%s", cfg.URLContentIdx,
+		cfg.StartTimeS, ip(cfg.StopTimeS), ip(cfg.TimeShiftBufferDepthS), ip(cfg.MinimumUpdatePeriodS), ip(cfg.PeriodsPerHour),
+		ip(cfg.StartNr), milli(cfg.AvailabilityTimeOffsetS), ip(cfg.LatencyTargetMS), ip(cfg.SuggestedPresentationDelayS), fp(cfg.ChunkDurS))
+	fmt.Fprintf(&sb, " tsdur=%d tsreg=%d scte=%s patch=%d drm=%s init=%s peroff=%s xlink=%s etp=%s etpdur=%s toff=%s", cfg.TimeSubsDurMS,
+		cfg.TimeSubsRegion, ip(cfg.SCTE35PerMinute), cfg.PatchTTL, dashIfEmpty(cfg.DRM), ip(cfg.InitSegAvailOffsetS), ip(cfg.PeriodOffset),
+		ip(cfg.XlinkPeriodsPerHour), ip(cfg.EtpPeriodsPerHour), ip(cfg.EtpDuration), fp(cfg.TimeOffsetS))
+	fmt.Fprintf(&sb, " flags=%s%s%s%s%s%s%s%s%s%s", b(cfg.AddLocationFlag), b(cfg.Tfdt32Flag), b(cfg.ContUpdateFlag), b(cfg.InsertAdFlag),
+		b(cfg.ContMultiPeriodFlag), b(cfg.SegTimelineFlag), b(cfg.SegTimelineNrFlag), b(cfg.SidxFlag), b(cfg.SegTimelineLossFlag),
+		b(cfg.AvailabilityTimeCompleteFlag))
+	durs := make([]string, len(cfg.PeriodDurations))
+	for i, d := range cfg.PeriodDurations {
+		durs[i] = strconv.Itoa(d)
+	}
+	utc := make([]string, len(cfg.UTCTimingMethods))
+	for i, u := range cfg.UTCTimingMethods {
+		utc[i] = string(u)
+	}
+	codes := make([]string, len(cfg.SegStatusCodes))
+	for i, c := range cfg.SegStatusCodes {
+		codes[i] = fmt.Sprintf("%d:%d:%d:%s", c.Cycle, c.Rsq, c.Code, strings.Join(c.Reps, "+"))
+	}
+	traffic := make([]string, len(cfg.Traffic))
+	for i, t := range cfg.Traffic {
+		its := make([]string, len(t.Itvls))
+		for j, it := range t.Itvls {
+			its[j] = fmt.Sprintf("%d:%d", int(it.state), it.durS)
+		}
+		traffic[i] = strings.Join(its, "+")
+	}
+	q := "-"
+	if cfg.Query != nil {
+		q = "[" + cfg.Query.raw + "]"
+	}
+	fmt.Fprintf(&sb, " durs=[%s] utc=[%s] stpp=[%s] wvtt=[%s] codes=[%s] traffic=[%s] query=%s", strings.Join(durs, ","),
+		strings.Join(utc, ","), strings.Join(cfg.TimeSubsStpp, ","), strings.Join(cfg.TimeSubsWvtt, ","), strings.Join(codes, ";"),
+		strings.Join(traffic, ";"), q)
+	return sb.String()
+}
+
+func dashIfEmpty(s string) string {
+	if s == "" {
+		return "-"
+	}
+	return s
 }
